@@ -41,6 +41,7 @@ def run(ck, tier):
     ck.rule("R-C12-tile", "the end of the input is not special: the plain-English front end never takes a token out again after laying the tokens end to end, so a paragraph at the end of the text has the same tokens as the same paragraph followed by more text (rule instance of R-C02-tile)")
     ck.rule("R-C12-stale", "a condensation in one paragraph must not shift the token indices used for a condensation in a later one: indices collected before an earlier removal are re-based by exactly the tokens it removes (rule instances of R-C02-stale)")
     ck.rule("R-C12-lexlocal", "token boundaries are decided from the front: no function in lex_token's table (nor a helper that receives the uncut remaining input) scans that input from its end (rev / rposition / rfind / last / ends_with / next_back ...); otherwise text arbitrarily far behind a token - in a later paragraph - changes how it is lexed")
+    ck.rule("R-C12-window", "a hand-written rule that slides a window of several tokens over the whole document (not inside a chunk, sentence or paragraph) requires every token of the window to be of a particular kind before it reports: a window position that is only tested negatively, or not at all, can be the break that closes the previous paragraph - and does not exist at the start of the document - so the paragraph's lints depend on whether something precedes it")
     ck.rule("R-C12-carry", "a hand-written rule that walks the document unit by unit (iter_sentences / iter_paragraphs / iter_chunks) carries nothing from one unit to the next except its result vector: a local that is set in one iteration and decides something in the next makes a paragraph's lints depend on the paragraphs before it (and treats the first unit of the document differently from the first unit of every later paragraph)")
     ck.not_decided += ["whether each of the 24 hand-written rule structs ignores everything beyond a paragraph break (they read neighbouring tokens by index)", "document-level passes other than the condensing ones", "quote pairing (excluded by the property's premise)"]
     p = facts.load()
@@ -126,6 +127,7 @@ def run(ck, tier):
     match_to_lint_locality(ck, p, rule)
     _lexlocal(ck, p, byk)
     _carry(ck, p)
+    _windows(ck, p)
     # shared rule instances
     c05._key(c05._Sub(_only(ck, (":rebase", "chunk-cache:get:chars", "chunk-cache:put:chars")), "R-C12-rebase", ""), p, byk)
     c02._condense(c05._Sub(ck, "R-C12-condense", ""), p, byk)
@@ -399,4 +401,100 @@ def _live_in(f, head, body, l):
         elif t["k"] == "switch" and _mentions(t["discr"], {l}):
             return True
         work += f.succs(bi)
+    return False
+
+
+# ---------------------------------------------------------------------------------------------------
+DOC_WIDE = {"tokens", "get_tokens", "iter_tokens", "fat_tokens", "fat_string_tokens"}
+WINDOWS = {"tuple_windows", "windows", "array_windows", "circular_tuple_windows"}
+
+
+def _windows(ck, p):
+    from ..cfg import bool_edges
+    rule = "R-C12-window"
+    impls = [f for f in p.impls_of_method("harper_core::linting::Linter::lint") if f.name.startswith("harper_core::")]
+    n = 0
+    for f in sorted(impls, key=lambda f: f.name):
+        cfg = Cfg(f)
+        pv = Prov(f)
+        loops = cfg.natural_loops()
+        for wb, wt in f.calls():
+            if method(wt) not in WINDOWS or not wt["args"]:
+                continue
+            srcs = {method(f.blocks[o[1]]["t"]) for o in arg_roots(f, pv, wt["args"][0]) if o[0] == "call"}
+            if not (srcs & DOC_WIDE) or (srcs & UNIT_ITERS):
+                continue
+            # the loop that advances this window iterator
+            nexts = [(bi, t) for bi, t in f.calls() if method(t) == "next" and any(o[0] == "call" and o[1] == wb for o in arg_roots(f, pv, t["args"][0]))]
+            if len(nexts) != 1:
+                continue
+            nb, nt = nexts[0]
+            bodies = [body for h, body in loops.items() if nb in body]
+            if not bodies:
+                continue
+            body = min(bodies, key=len)
+            head = [h for h, b_ in loops.items() if b_ is body][0]
+            n += 1
+            ck.saw(f)
+            key = "%s:document-wide-window" % keyname(p, f)
+            sites = [bi for bi, t in f.calls() if bi in body and method(t) in ("push", "extend", "append", "push_back") and re.search(r"Vec<(harper_core::)?(linting::)?(lint::)?Lint>", f.local_tystr(c02._root_local(f, pv, t["args"][0]) or 0))]
+            if not sites:
+                ck.undecided(rule, key, f.loc(wt["ln"]), "no push onto the result vector found inside the window loop")
+                continue
+            # window positions: locals that copy a field of the Some payload of next()
+            elems = {}
+            for bi in body:
+                for sx in f.blocks[bi]["s"]:
+                    if sx["k"] == "assign" and len(sx["lhs"]) == 1 and sx["rv"]["k"] == "use" and place_of(sx["rv"]["op"]):
+                        src = place_of(sx["rv"]["op"])
+                        if src[0] == nt["dest"][0]:
+                            idx = [e[1] for e in src[1:] if isinstance(e, list) and e[0] == "f"]
+                            if idx:
+                                elems[sx["lhs"][0]] = idx[-1]
+            names = f.debug_names()
+            verdicts = {}
+            for el, pos in elems.items():
+                positive, negative, handed = [], [], []
+                for bi, t in f.calls():
+                    if bi not in body or not t["args"]:
+                        continue
+                    uses_el = any(o == ("local", el) for o in ()) or any(_derives_local(f, pv, a, el) for a in t["args"])
+                    if not uses_el:
+                        continue
+                    m = method(t)
+                    if m.startswith("is_") or m.startswith("as_"):
+                        e = bool_edges(f, bi)
+                        if e:
+                            tr = any(cfg.reaches(e[0], [sb], avoid=[head]) for sb in sites)
+                            fa = any(cfg.reaches(e[1], [sb], avoid=[head]) for sb in sites)
+                            if tr and not fa:
+                                positive.append(m)
+                            elif fa and not tr:
+                                negative.append(m)
+                    elif not norm(inst_of(t)).startswith(("core::", "alloc::", "std::")) and m not in ("get_span_content", "get_span_content_str"):
+                        handed.append(m)
+                verdicts[el] = (pos, positive, negative, handed)
+            loose = [(names.get(el, "_%d" % el), v) for el, v in sorted(verdicts.items(), key=lambda kv: kv[1][0]) if not v[1] and not v[3]]
+            if loose:
+                ck.refuted(rule, key, f.loc(wt["ln"]), "the window slides over the whole document and position %s is %s before a lint is pushed: that token can be the break that closes the previous paragraph (and is missing at the very start of the document), so a paragraph gets a lint inside a larger text that it does not get on its own" % (
+                    ", ".join("`%s`" % nm for nm, _ in loose), "only tested negatively (%s)" % ", ".join(loose[0][1][2]) if loose[0][1][2] else "never required to be of a particular kind"))
+            else:
+                ck.proved(rule, key, f.loc(wt["ln"]), "every position of the document-wide window is required to be of a particular kind (or handed to the lint-building helper): %s" % {names.get(el, "_%d" % el): (v[1] or v[3]) for el, v in verdicts.items()})
+    ck.extra["document_wide_windows"] = n
+
+
+def _derives_local(f, pv, op, local, depth=0):
+    pl = place_of(op)
+    if not pl:
+        return False
+    if pl[0] == local:
+        return True
+    if depth > 5:
+        return False
+    for (b, si, kind, x) in pv.defs.get(pl[0], []):
+        if "rv" in x:
+            rv = x["rv"]
+            src = rv.get("place") if rv["k"] == "ref" else (place_of(rv["op"]) if rv["k"] in ("use", "cast") and place_of(rv.get("op", {})) else None)
+            if src and (src[0] == local or _derives_local(f, pv, {"c": [src[0]]}, local, depth + 1)):
+                return True
     return False
